@@ -1,22 +1,20 @@
 // scratch probes against the real API (no harness model in the loop)
+use automerge::transaction::Transactable;
 use automerge::*;
+use std::str::FromStr;
 
 fn main() {
-    let a = std::fs::read("/verif/out/dump/a.bin").unwrap();
-    let b = std::fs::read("/verif/out/dump/b.bin").unwrap();
-    for enc in [TextEncoding::UnicodeCodePoint, TextEncoding::Utf8CodeUnit, TextEncoding::Utf16CodeUnit, TextEncoding::GraphemeCluster] {
-        let mut x = AutoCommit::load_with_options(&a, LoadOptions::new().text_encoding(enc)).unwrap();
-        let mut y = AutoCommit::load_with_options(&b, LoadOptions::new().text_encoding(enc)).unwrap();
-        let r = std::panic::catch_unwind(std::panic::AssertUnwindSafe(|| x.merge(&mut y).map(|h| h.len())));
-        println!("{enc:?}: merge a<-b: {:?}", r.map_err(|_| "PANIC"));
-        let mut x = AutoCommit::load_with_options(&a, LoadOptions::new().text_encoding(enc)).unwrap();
-        let mut y = AutoCommit::load_with_options(&b, LoadOptions::new().text_encoding(enc)).unwrap();
-        let cs = y.get_changes(&x.get_heads());
-        println!("   {} changes to apply", cs.len());
-        for c in cs {
-            let h = c.hash();
-            let r = std::panic::catch_unwind(std::panic::AssertUnwindSafe(|| x.apply_changes([c]).is_ok()));
-            println!("   apply {h}: {:?}", r.map_err(|_| "PANIC"));
-        }
+    let bytes = std::fs::read("/verif/out/dump/iso-R0.bin").unwrap();
+    let actor = ActorId::from(hex::decode("5070ffffffffffffffffffffffffffffffffffffffffffffffffffffffffffff").unwrap());
+    let h = ChangeHash::from_str("9837570aa8a481cf6186b13db3e2a025a36a09353c2d4714fbda00ce9c1b1d98").unwrap();
+    let mut d = AutoCommit::load(&bytes).unwrap().with_actor(actor);
+    println!("changes {} actors: {:?}", d.get_changes(&[]).len(), d.get_changes(&[]).iter().map(|c| c.actor_id().to_hex_string()).collect::<std::collections::BTreeSet<_>>());
+    d.isolate(&[h]);
+    for i in 0..6 {
+        let r = std::panic::catch_unwind(std::panic::AssertUnwindSafe(|| {
+            d.put(ROOT, "iso", i).unwrap();
+            d.get_heads()
+        }));
+        println!("op {i}: {:?}", r.map(|h| h.len()).map_err(|_| "PANIC"));
     }
 }
